@@ -715,7 +715,11 @@ theorem validateWith_complete (b : Backend) (md : Md) (hv : ValidMd b md) (hwt :
         exact ⟨_, validateWith_of h1 h2 h3 h4 h5 h6⟩
   | cmsAod =>
     obtain ⟨cc, ciC, hb, hcC, hlk, -⟩ := branch_cmsAod
-    have hfl : md.flag = true := by rcases hcms with h | h; exact absurd h (by decide); exact h
+    have hfl : md.flag = true := by
+      rcases hcms with h | h | h
+      · exact absurd h (by decide)
+      · exact h
+      · rw [hcc] at h; exact absurd h (by decide)
     obtain ⟨et, het⟩ := str_of_has (hflag.1 hfl) w4
     have h3 : containerStage (branchOf .cmsAod) md = .ok (ciC, ct, some et) := by
       unfold containerStage; rw [hb]; exact collStage_of hct het hcC
@@ -723,7 +727,11 @@ theorem validateWith_complete (b : Backend) (md : Md) (hv : ValidMd b md) (hwt :
     exact ⟨_, validateWith_of h1 h2 h3 h4 h5 h6⟩
   | cmsMiniaod =>
     obtain ⟨cc, ciC, hb, hcC, hlk, -⟩ := branch_cmsMiniaod
-    have hfl : md.flag = true := by rcases hcms with h | h; exact absurd h (by decide); exact h
+    have hfl : md.flag = true := by
+      rcases hcms with h | h | h
+      · exact absurd h (by decide)
+      · exact h
+      · rw [hcc] at h; exact absurd h (by decide)
     obtain ⟨et, het⟩ := str_of_has (hflag.1 hfl) w4
     have h3 : containerStage (branchOf .cmsMiniaod) md = .ok (ciC, ct, some et) := by
       unfold containerStage; rw [hb]; exact collStage_of hct het hcC
